@@ -104,6 +104,14 @@ func genTree(r *rand.Rand, depth int, root bool) *tnode {
 			cnt = 0
 		}
 		names := genTreeNames(r, cnt)
+		if r.Intn(3) == 0 {
+			// names longer than any filesystem allows
+			for _, l := range []int{256, 300, 1000} {
+				b := bytes.Repeat([]byte{'L'}, l)
+				copy(b, fmt.Sprintf("%04d-%08x-", l, r.Uint32()))
+				names = append(names, string(b))
+			}
+		}
 		if n.Kind == "hamt" {
 			// a few entries whose hash equals that of one of their own proper suffixes:
 			// a path ending in that suffix names no entry but walks the same bucket chain
